@@ -170,7 +170,7 @@ type caseC17Doc struct {
 
 var c17Strings = []string{
 	"noble", "x", "channel-0", "channel-1", "0", "1", "5", "10", "a:b", "2:5", ":", "", " ",
-	"\x00", "a\x00b", "noble\x00", "\xff\xfe", "é", strings.Repeat("a", 32), strings.Repeat("a", 33), strings.Repeat("9", 32),
+	"\x00", "a\x00b", "noble\x00", "\xff\xfe", "é", "noblé", "日本", "ü", "\xc3", "a\x80", "tab\there", "line\nfeed", "\x7f", strings.Repeat("a", 32), strings.Repeat("a", 33), strings.Repeat("9", 32),
 	"05", "+5", "-1", "4294967295", "4294967296", "channel-007", "channel-18446744073709551615",
 }
 
